@@ -24,6 +24,7 @@
 #include <fcntl.h>
 #include <signal.h>
 #include <errno.h>
+#include <dirent.h>
 extern "C" {
 #include "bufferevent-internal.h"
 }
@@ -37,12 +38,16 @@ enum { CM_NONE = 0, CM_UNIX_OK = 1, CM_UNIX_REFUSED = 2, CM_PRECONNECTED = 3, CM
 struct World; struct End;
 static World *W;
 
-static inline uint8_t pat(int d, uint64_t p) {
+#define BEVW_NOSAN __attribute__((no_sanitize("address", "undefined")))
+static inline BEVW_NOSAN uint8_t pat(int d, uint64_t p) {
   uint32_t x = (uint32_t)p * 2654435761u + (uint32_t)(p >> 32) * 40503u + (uint32_t)(d + 1) * 0x9e3779b9u;
   return (uint8_t)((x >> 24) ^ (x >> 11) ^ x);
 }
-static inline uint8_t xkey(int d, int layer, uint64_t off) { return (uint8_t)(off * 131 + (off >> 8) * 7 + d * 17 + layer * 29 + 7); }
+static BEVW_NOSAN void fill_pat(uint8_t *b, int d, uint64_t base, size_t n) { for (size_t i = 0; i < n; i++) b[i] = pat(d, base + i); }
+static BEVW_NOSAN long find_mismatch(const uint8_t *b, int d, uint64_t base, size_t n) { for (size_t i = 0; i < n; i++) if (b[i] != pat(d, base + i)) return (long)i; return -1; }
+static inline BEVW_NOSAN uint8_t xkey(int d, int layer, uint64_t off) { return (uint8_t)(off * 131 + (off >> 8) * 7 + d * 17 + layer * 29 + 7); }
 
+static BEVW_NOSAN void xor_buf(uint8_t *t, int d, int layer, uint64_t off, int n) { for (int i = 0; i < n; i++) t[i] ^= xkey(d, layer, off + i); }
 struct FiltCtx { int kind = F_ID; int K = 1; int layer = 0; int d_out = 0, d_in = 0; uint64_t in_off = 0, out_off = 0; uint64_t calls = 0, need_more = 0; int busy[2] = {0, 0}; uint64_t moved[2] = {0, 0}; size_t inflight[2] = {0, 0}, len0[2] = {0, 0}; };
 struct Layer { struct bufferevent *bev = nullptr; bool is_filter = false; FiltCtx ctx; int opts = 0; };
 
@@ -56,7 +61,7 @@ struct End {
   // model of application-visible settings
   short enabled = EV_WRITE; size_t rlow = 0, rhigh = 0, wlow = 0, whigh = 0;
   // event bookkeeping
-  int n_conn = 0, n_eof_r = 0, n_eof_w = 0, n_err_r = 0, n_err_w = 0, n_err_plain = 0, n_rcb = 0, n_wcb = 0, n_ecb = 0;
+  int r_budget = 1, w_budget = 1; int n_term_r = 0, n_term_w = 0, n_conn = 0, n_eof_r = 0, n_eof_w = 0, n_err_r = 0, n_err_w = 0, n_err_plain = 0, n_rcb = 0, n_wcb = 0, n_ecb = 0;
   bool rd_done = false, wr_done = false;  // EOF/ERROR reported for that direction
   bool clean_in = true, clean_out = true; // no fault / reset / free interfered with data flowing in / out
   bool shut_wr = false; bool fin_w = false, fin_r = false;
@@ -64,9 +69,10 @@ struct End {
   uint64_t prev_len = 0; bool hi_excuse = false, low_excuse = false, wlow_excuse = false;
   uint64_t prev_out = 0; bool w_owed = false;
   bool wm_susp_seen = false, wm_resume_seen = false; uint64_t total_at_susp = 0;
-  bool resume_armed = false; uint64_t total_at_resume = 0;
+  bool resume_armed = false; uint64_t total_at_resume = 0; int armed_turn = 0;
   // lifecycle monitor
-  bool connect_pending = false; int rw_since_connect = 0; int connect_mode = CM_NONE; bool connect_failed = false;
+  uint64_t total_at_eof = 0;
+  bool connect_pending = false, skip_conn_order = false; int rw_since_connect = 0; int connect_mode = CM_NONE; bool connect_failed = false;
   uint64_t total_at_last_rcb = 0;
   int cbs_this_turn = 0;
 };
@@ -106,6 +112,8 @@ static inline uint64_t rechunk_slack(End &e) { uint64_t t = 0; for (int i = 1; i
 // source's accounting is updated; with two stacked filters whose lower one is not deferred, the upper filter is re-entered
 // from those callbacks and moves the same bytes twice.  When the key is listed (or in the C18/C19 targets, where it is not
 // the subject) the harness filters decline re-entrant calls, and the library's NULL filter is not used as the upper filter.
+static const char *KEY_FILTER_EOF = "C17/filter-eof-before-data";     // a filter forwards the underlying EOF while unprocessed input remains below it
+static const char *KEY_PAIR_FINISH = "C17/pair-finish-leaves-output";  // pair flush(BEV_FINISHED) honours the partner's high read watermark, then reports EOF
 static const char *KEY_REENTRY = "C17/remove-buffer-reentrancy-dup";
 static bool reentry_guard() { static int g = -1; if (g < 0) g = verif_known(KEY_REENTRY) ? 1 : 0; return g || !M17(); }
 static enum bufferevent_filter_result run_filter(struct evbuffer *src, struct evbuffer *dst, ev_ssize_t limit,
@@ -129,7 +137,7 @@ static enum bufferevent_filter_result run_filter(struct evbuffer *src, struct ev
     uint64_t &off = input ? c->in_off : c->out_off; int d = input ? c->d_in : c->d_out; size_t moved = 0;
     c->busy[di]++;
     while (avail) { size_t k = avail < sizeof tmp[0] ? avail : sizeof tmp[0]; int got = evbuffer_remove(src, t, k); if (got <= 0) break;
-      for (int i = 0; i < got; i++) t[i] ^= xkey(d, c->layer, off + i);
+      xor_buf(t, d, c->layer, off, got);
       off += got; evbuffer_add(dst, t, got); avail -= got; moved += got; }
     c->busy[di]--;
     if (!moved) return BEV_ERROR;
@@ -192,6 +200,8 @@ static void observe(End &e, const char *when) {
     // write callback owed when the output buffer dropped to <= low since the last observation
     if (e.cb_w && e.prev_out > e.wlow && out <= e.wlow) e.w_owed = true;
   }
+  if (M19() && e.rd_done && (e.n_eof_r || W->kind == K_PAIR) && !(e.nl > 1 && verif_known("C19/data-after-eof-filter")))
+    CHECK(in_total(e) <= e.total_at_eof, e.nl > 1 ? "C19/data-after-eof-filter" : "C19/data-after-eof", "%s: end %c obtained %llu more byte(s) after EOF was reported for reading", when, 'A' + e.id, (unsigned long long)(in_total(e) - e.total_at_eof));
   e.prev_len = len; e.prev_out = out; e.hi_excuse = false;
 }
 static void observe_all(const char *when) { observe(W->e[0], when); observe(W->e[1], when); }
@@ -215,27 +225,40 @@ static void check_conservation(const char *when) {
 
 // ------------------------------------------------------------------------------------------------ application actions
 static void app_read(End &e, size_t n, const char *where) {
-  static uint8_t buf[65536];
+  // bufferevent_read() may run callbacks (filters / pairs refill the input, a non-deferred read callback may run and read):
+  // reserve the stream positions before the call and use one buffer per nesting level
+  static std::vector<uint8_t> bufs[6]; static int nest = 0;
+  if (nest >= 6) return;
+  std::vector<uint8_t> &buf = bufs[nest]; if (buf.size() < 65536) buf.resize(65536);
+  nest++;
   struct bufferevent *t = top(e); int d = 1 - e.id; size_t want = n, total = 0;
-  while (n) { size_t k = n < sizeof buf ? n : sizeof buf; size_t got = bufferevent_read(t, buf, k); if (!got) break;
-    for (size_t i = 0; i < got; i++) if (buf[i] != pat(d, e.consumed + i))
-      VERIF_FAIL(K("content-mismatch"), "%s: end %c byte %llu of the stream is 0x%02x, expected 0x%02x (stream corrupted, reordered, lost or duplicated)", where, 'A' + e.id, (unsigned long long)(e.consumed + i), buf[i], pat(d, e.consumed + i));
-    e.consumed += got; n -= got; total += got; }
+  while (n && e.live) { size_t k = n < buf.size() ? n : buf.size(); size_t have = inlen(t); size_t pre = k < have ? k : have; if (!pre) break;
+    uint64_t base = e.consumed; e.consumed += pre;
+    size_t got = bufferevent_read(t, buf.data(), k);
+    CHECK(got == pre, K("read-short"), "%s: bufferevent_read(%zu) with %zu byte(s) buffered returned %zu", where, k, have, got);
+    long bad = find_mismatch(buf.data(), d, base, got);
+    if (bad >= 0) VERIF_FAIL(K("content-mismatch"), "%s: end %c byte %llu of the stream is 0x%02x, expected 0x%02x (stream corrupted, reordered, lost or duplicated)", where, 'A' + e.id, (unsigned long long)(base + bad), buf[bad], pat(d, base + bad));
+    n -= got; total += got; }
+  nest--;
   CHECK(e.consumed <= peer(e).written, K("invented-bytes"), "%s: end %c consumed %llu bytes, peer wrote only %llu", where, 'A' + e.id, (unsigned long long)e.consumed, (unsigned long long)peer(e).written);
+  if (!e.live) return;
   TR("%*s%s: %c read(%zu) -> %zu (consumed %llu, input now %zu)", W->cb_depth * 4, "", where, 'A' + e.id, want, total, (unsigned long long)e.consumed, inlen(t));
   size_t len = inlen(t);
-  if (e.rhigh && e.prev_len >= e.rhigh && len < e.rhigh && (e.enabled & EV_READ) && !e.rd_done && !e.resume_armed) { e.resume_armed = true; e.total_at_resume = in_total(e); }
+  if (e.rhigh && e.prev_len >= e.rhigh && len < e.rhigh && (e.enabled & EV_READ) && !e.rd_done && !e.resume_armed) { e.resume_armed = true; e.total_at_resume = in_total(e); e.armed_turn = W->n_turns; TR("      (resume armed for %c at total %llu, turn %d)", 'A' + e.id, (unsigned long long)e.total_at_resume, W->n_turns); }
   if (total) e.low_excuse = true;
   e.prev_len = len;
 }
 static void app_write(End &e, size_t n, const char *where) {
   static std::vector<uint8_t> buf; if (buf.size() < n) buf.resize(n);
-  if (e.written + n > (6u << 20)) return;
-  for (size_t i = 0; i < n; i++) buf[i] = pat(e.id, e.written + i);
+  if (e.written + n > (3u << 20) || e.shut_wr || e.fin_w || !e.live) return;   // no writes after the application's own shutdown / finish
+  fill_pat(buf.data(), e.id, e.written, n);
+  e.written += n;   // reserve the stream positions first: a non-deferred write callback may run (and write) inside bufferevent_write
+  TR("%*s%s: %c write(%zu) ...", W->cb_depth * 4, "", where, 'A' + e.id, n);
   int r = bufferevent_write(top(e), buf.data(), n);
-  TR("%*s%s: %c write(%zu) -> %d (written %llu, output now %zu)", W->cb_depth * 4, "", where, 'A' + e.id, n, r, (unsigned long long)(e.written + n), outlen(top(e)));
+  if (!e.live) return;
+  TR("%*s%s: %c write(%zu) -> %d (written %llu, output now %zu)", W->cb_depth * 4, "", where, 'A' + e.id, n, r, (unsigned long long)e.written, outlen(top(e)));
   CHECK(r == 0, K("write-failed"), "bufferevent_write(%zu) = %d", n, r);
-  e.written += n; e.wlow_excuse = true; W->n_writes++; if (n > 65536) W->big = true;
+  e.wlow_excuse = true; W->n_writes++; if (n > 65536) W->big = true;
   e.prev_out = outlen(top(e));    // growth by the application is not a "drop"
 }
 static void set_cbs(End &e, bool r, bool w, bool ev);
@@ -253,13 +276,15 @@ static void app_free(End &e, const char *where) {
 static size_t draw_size(Src &s) {
   static const size_t B[] = {1, 2, 255, 256, 257, 511, 512, 4095, 4096, 4097, 16383, 16384, 16385, 65535, 65536, 65537};
   long maxchunk = verif_param("maxchunk", 1 << 20);
-  switch (s.below(16)) {
-    case 0: case 1: case 2: case 3: case 4: case 5: case 6: return 1 + s.below(64);
-    case 7: case 8: case 9: case 10: return B[s.below(sizeof B / sizeof B[0])];
-    case 11: case 12: return 1 + s.below(8192);
-    case 13: case 14: return 1 + s.below(200000);
-    default: return 65536 + s.below((uint32_t)(maxchunk - 65536 + 1));
-  }
+  uint32_t sel = s.below(128);
+  static long cap = verif_param("sizeclass_cap", 128); if ((long)sel >= cap) sel = (uint32_t)cap - 1;
+  if (sel < 56) return 1 + s.below(64);
+  if (sel < 80) return B[s.below(10)];
+  if (sel < 88) return B[10 + s.below(6)];
+  if (sel < 118) return 1 + s.below(8192);
+  if (sel < 124) return 1 + s.below(40000);
+  if (sel < 127) return 1 + s.below(200000);
+  return 65536 + s.below((uint32_t)(maxchunk - 65536 + 1));
 }
 static size_t draw_mark(Src &s) {
   static const size_t B[] = {0, 1, 2, 7, 64, 100, 4096, 16384, 16385, 100000};
@@ -279,6 +304,11 @@ static void do_enable(End &e, short ev, const char *where) {
   if (e.rd_done) ev &= ~EV_READ;
   if (e.wr_done) ev &= ~EV_WRITE;
   if (!ev) return;
+  // the library disables a direction when it detects EOF/ERROR; with deferred callbacks the report may not have been delivered
+  // yet, so the application can unknowingly re-enable the direction and thereby legitimately provoke one more report
+  short lib_en = bufferevent_get_enabled(top(e));
+  if ((ev & EV_READ) && (e.enabled & EV_READ) && !(lib_en & EV_READ)) e.r_budget++;
+  if ((ev & EV_WRITE) && (e.enabled & EV_WRITE) && !(lib_en & EV_WRITE)) e.w_budget++;
   int r = bufferevent_enable(top(e), ev);
   TR("%*s%s: %c enable(%s%s) -> %d", W->cb_depth * 4, "", where, 'A' + e.id, ev & EV_READ ? "R" : "", ev & EV_WRITE ? "W" : "", r);
   CHECK(r == 0, K("enable-failed"), "bufferevent_enable = %d", r);
@@ -315,7 +345,8 @@ static void in_cb_action(End &e, Src &s, const char *where) {
     case 4: if (e.live && s.chance(1, 2)) { size_t lo = draw_mark(s), hi = draw_mark(s); do_setwatermark(e, EV_READ, lo, hi, where); } break;
     case 5: if (peer(e).live && !W->settling) app_write(peer(e), 1 + s.below(300), where); break;
     case 6: W->in_cb_free = true; app_free(e, where); break;
-    case 7: if (e.live) { W->in_cb_setcb = true; bool r = s.flag(), w = s.flag(), ev = s.flag(); set_cbs(e, r, w, ev); } break;
+    case 7: if (e.live) { W->in_cb_setcb = true; bool r = s.flag(), w = s.flag(), ev = s.flag();
+        set_cbs(e, r, w, ev); } break;
     case 8: if (peer(e).live) { W->in_cb_free = true; app_free(peer(e), where); } break;
   }
 }
@@ -327,7 +358,6 @@ static void on_read(struct bufferevent *bev, void *arg) {
   cb_common(e, bev, "read", e.cb_r);
   e.n_rcb++; W->cb_depth++;
   if (e.connect_pending) e.rw_since_connect++;
-  if (M19()) CHECK(!e.rd_done, "C19/read-callback-after-eof", "end %c: read callback after EOF/ERROR was reported for reading", 'A' + e.id);
   if (M18() && !e.low_excuse) CHECK(len >= e.rlow, "C18/readcb-below-low", "end %c: read callback with %zu bytes buffered, low read watermark is %zu", 'A' + e.id, len, e.rlow);
   e.low_excuse = false;
   // what the application does with the data
@@ -369,7 +399,7 @@ static void on_event(struct bufferevent *bev, short what, void *arg) {
     if (M19()) {
       CHECK(e.n_conn <= 1, "C19/connected-twice", "end %c: BEV_EVENT_CONNECTED reported %d times", 'A' + e.id, e.n_conn);
       CHECK(e.connect_mode != CM_NONE, "C19/connected-without-connect", "end %c: CONNECTED without a connect", 'A' + e.id);
-      CHECK(e.rw_since_connect == 0, "C19/rw-callback-before-connected", "end %c: %d read/write callback(s) ran after bufferevent_socket_connect() and before BEV_EVENT_CONNECTED", 'A' + e.id, e.rw_since_connect);
+      if (!e.skip_conn_order) CHECK(e.rw_since_connect == 0, "C19/rw-callback-before-connected", "end %c: %d read/write callback(s) ran after bufferevent_socket_connect() and before BEV_EVENT_CONNECTED", 'A' + e.id, e.rw_since_connect);
       CHECK(!(what & (BEV_EVENT_EOF | BEV_EVENT_ERROR)) || ((BEV_UPCAST(bev)->options) & BEV_OPT_DEFER_CALLBACKS), "C19/connected-with-error", "CONNECTED combined with EOF/ERROR in a non-deferred report: 0x%x", what);
     }
     e.connect_pending = false;
@@ -378,10 +408,12 @@ static void on_event(struct bufferevent *bev, short what, void *arg) {
   if (what & (BEV_EVENT_EOF | BEV_EVENT_ERROR)) {
     if (what & BEV_EVENT_EOF) { if (rdir) e.n_eof_r++; if (wdir) e.n_eof_w++; }
     if (what & BEV_EVENT_ERROR) { if (rdir) e.n_err_r++; if (wdir) e.n_err_w++; if (!rdir && !wdir) { e.n_err_plain++; e.connect_failed = true; e.connect_pending = false; } }
+    if (rdir) e.n_term_r++; if (wdir) e.n_term_w++;
     if (M17() || M19()) {
       const char *k = M17() ? "C17/eof-or-error-repeated" : "C19/eof-or-error-repeated";
-      CHECK(e.n_eof_r <= 1 && e.n_eof_w <= 1 && e.n_err_r <= 1 && e.n_err_w <= 1 && e.n_err_plain <= 1 && e.n_eof_r + e.n_err_r <= 1, k,
-            "end %c: EOF/ERROR reported more than once for a direction (eof r/w %d/%d, error r/w %d/%d, connect error %d)", 'A' + e.id, e.n_eof_r, e.n_eof_w, e.n_err_r, e.n_err_w, e.n_err_plain);
+      // (a deferred report may merge EOF|READING with ERROR|WRITING into one call: count reports per direction)
+      CHECK(e.n_term_r <= e.r_budget && e.n_term_w <= e.w_budget && e.n_err_plain <= 1, k,
+            "end %c: EOF/ERROR reported more than once for a direction (reports for reading %d, for writing %d, connect errors %d; this one 0x%x)", 'A' + e.id, e.n_term_r, e.n_term_w, e.n_err_plain, what);
     }
     if (rdir) {
       // deferred order: data that arrived before the EOF/ERROR must have been announced by a read callback first
@@ -390,15 +422,12 @@ static void on_event(struct bufferevent *bev, short what, void *arg) {
       // orderly end of stream: every byte the peer put on the wire (or handed over) before its shutdown is already here
       if (M17() && (what & BEV_EVENT_EOF)) {
         End &p = peer(e);
-        if (W->kind == K_SOCK) {
-          uint64_t undelivered = lower_in(e);
-          CHECK(undelivered <= rechunk_slack(e), "C17/eof-before-data", "end %c: EOF reported while %llu byte(s) received earlier are still held below the application's bufferevent", 'A' + e.id, (unsigned long long)undelivered);
-          CHECK(W->wire_recv[e.id] == W->wire_sent[p.id], "C17/eof-before-wire-data", "end %c: EOF after %llu of %llu wire bytes", 'A' + e.id, (unsigned long long)W->wire_recv[e.id], (unsigned long long)W->wire_sent[p.id]);
-        } else if (p.live) {
-          uint64_t undelivered = lower_in(e) + all_out(p);
-          CHECK(undelivered <= rechunk_slack(e) + rechunk_slack(p), "C17/eof-before-data", "end %c: EOF reported while %llu byte(s) written before the peer finished are not yet delivered", 'A' + e.id, (unsigned long long)undelivered);
-        }
+        if (e.nl > 1 && verif_known(KEY_FILTER_EOF)) verif_known_skipped(KEY_FILTER_EOF);
+        else CHECK(lower_in(e) <= rechunk_slack(e), KEY_FILTER_EOF, "end %c: EOF reported to the application while %llu byte(s) received before it are still held in the bufferevent(s) underneath the filter", 'A' + e.id, (unsigned long long)lower_in(e));
+        if (W->kind == K_SOCK) CHECK(W->wire_recv[e.id] == W->wire_sent[p.id], "C17/eof-before-wire-data", "end %c: EOF after %llu of %llu wire bytes", 'A' + e.id, (unsigned long long)W->wire_recv[e.id], (unsigned long long)W->wire_sent[p.id]);
+        else if (p.live) CHECK(all_out(p) <= rechunk_slack(p), KEY_PAIR_FINISH, "end %c: EOF reported while %llu byte(s) the peer wrote before it finished are still in the peer's output buffer", 'A' + e.id, (unsigned long long)all_out(p));
       }
+      if (!e.rd_done) e.total_at_eof = in_total(e);
       e.rd_done = true; e.enabled &= ~EV_READ; e.resume_armed = false;
       if (what & BEV_EVENT_ERROR) e.clean_in = false;
     }
@@ -459,6 +488,17 @@ static void post_op(const char *when) {
   check_locks(when);
 }
 
+// known finding KEY_PAIR_FINISH: avoid finishing towards a partner whose input is below a non-zero high read watermark
+static bool pair_finish_excluded(End &e, short io) {
+  End &p = peer(e); bool hit = false;
+  if ((io & EV_WRITE) && p.live && p.nl == 1 && p.rhigh) hit = true;
+  if ((io & EV_READ) && e.nl == 1 && e.rhigh) hit = true;
+  if (!hit) return false;
+  const char *k = M17() ? KEY_PAIR_FINISH : M19() ? "C19/data-after-eof" : nullptr;
+  if (M18()) return true;                       // not the subject of C18: always avoided there
+  if (k && verif_known(k)) { verif_known_skipped(k); return true; }
+  return false;
+}
 struct TurnPre { bool armed[2]; bool src_avail[2]; };
 static bool source_available(End &e) {
   End &p = peer(e);
@@ -468,8 +508,9 @@ static bool source_available(End &e) {
 }
 static void do_turn(int flags, const char *why) {
   TurnPre pre;
-  for (int i = 0; i < 2; i++) { End &e = W->e[i]; e.cbs_this_turn = 0; pre.armed[i] = e.live && e.resume_armed; pre.src_avail[i] = pre.armed[i] && source_available(e); }
+  for (int i = 0; i < 2; i++) { End &e = W->e[i]; e.cbs_this_turn = 0; pre.armed[i] = e.live && e.resume_armed && e.armed_turn <= W->n_turns; pre.src_avail[i] = pre.armed[i] && source_available(e); }
   W->passes = 0; W->n_turns++;
+  TR("  pre-turn %d: armed A=%d(src %d) B=%d(src %d)", W->n_turns, pre.armed[0], pre.src_avail[0], pre.armed[1], pre.src_avail[1]);
   TR("%s: turn flags=%s", why, flags == EVLOOP_ONCE ? "ONCE" : "NONBLOCK");
   W->in_turn = true; int r = event_base_loop(W->base, flags); W->in_turn = false;
   TR("%s: turn -> %d passes=%d", why, r, W->passes);
@@ -478,9 +519,15 @@ static void do_turn(int flags, const char *why) {
   if (M18()) for (int i = 0; i < 2; i++) { End &e = W->e[i]; if (!e.live) continue;
     observe(e, "after turn");
     CHECK(!e.w_owed, "C18/writecb-missing", "end %c: output buffer dropped to %zu (<= low write watermark %zu) but no write callback ran by the end of the turn", 'A' + i, outlen(top(e)), e.wlow);
-    if (pre.armed[i] && e.resume_armed) {
-      if (pre.src_avail[i] && !W->faults_armed && (e.enabled & EV_READ) && !e.rd_done)
-        CHECK(in_total(e) > e.total_at_resume, "C18/no-resume-after-drain", "end %c: application drained the input below the high read watermark %zu, data was waiting, but nothing arrived during a whole loop turn (input %zu)", 'A' + i, e.rhigh, inlen(top(e)));
+    if (pre.armed[i] && e.resume_armed && e.armed_turn < W->n_turns) {
+      if (pre.src_avail[i] && !W->faults_armed && (e.enabled & EV_READ) && !e.rd_done) {
+        // known finding: a NON-deferred filter whose read callback drains the input inside the callback never looks at the
+        // rest of the underlying input again (the "data left, buffer full" hook is armed only after the callback returned)
+        bool filt_nd = e.nl > 1 && !(e.L[e.nl - 1].opts & BEV_OPT_DEFER_CALLBACKS);
+        const char *key = filt_nd ? "C18/filter-no-resume-after-drain" : "C18/no-resume-after-drain";
+        if (filt_nd && verif_known(key)) verif_known_skipped(key);
+        else CHECK(in_total(e) > e.total_at_resume, key, "end %c: application drained the input below the high read watermark %zu, data was waiting, but nothing arrived during a whole loop turn (input %zu)", 'A' + i, e.rhigh, inlen(top(e)));
+      }
       e.resume_armed = false;
     } }
 }
@@ -497,7 +544,8 @@ static void settle() {
   uint64_t last = ~0ull; int idle = 0;
   for (int round = 0; round < 64 && idle < 2 && !W->cap_hit; round++) {
     for (int i = 0; i < 2; i++) { End &e = W->e[i]; if (!e.live) continue;
-      if (e.nl > 1) { W->e[0].hi_excuse = W->e[1].hi_excuse = true; bufferevent_flush(top(e), EV_READ | EV_WRITE, BEV_FLUSH); }
+      // one flush call moves data up by one layer only (be_filter_flush handles its own layer before the lower one)
+      for (int k = 1; k < e.nl; k++) { W->e[0].hi_excuse = W->e[1].hi_excuse = true; bufferevent_flush(top(e), EV_READ | EV_WRITE, BEV_FLUSH); }
       app_read(e, (size_t)-1, "settle"); }
     do_turn(EVLOOP_NONBLOCK, "settle");
     for (int i = 0; i < 2; i++) if (W->e[i].live) app_read(W->e[i], (size_t)-1, "settle");
@@ -507,12 +555,15 @@ static void settle() {
   }
 }
 
+static int count_open_fds() {   // 3 syscalls instead of 1024 fcntl()s
+  DIR *d = opendir("/proc/self/fd"); if (!d) return -1; int n = 0; while (readdir(d)) n++; closedir(d); return n;
+}
 static int run_case(const uint8_t *data, size_t size, int prop) {
   sim_reset();
   verif_case_begin(prop == 17 ? "C17" : prop == 18 ? "C18" : "C19");
   Src s(data, size);
   World w; W = &w; w.s = &s; w.prop = prop; w.e[0].id = 0; w.e[1].id = 1;
-  int64_t live0 = sim_mem_live_blocks; struct sim_fdset fd0, fd1; sim_fd_snapshot(&fd0);
+  int64_t live0 = sim_mem_live_blocks; int fds0 = count_open_fds();
   sim_clock_enable(SIM_START_US); sim_set_wait_hook(wait_hook, nullptr); sim_set_io_hook(io_hook, nullptr); sim_set_wait_limit(400000);
 
   // ---- base
@@ -585,6 +636,10 @@ static int run_case(const uint8_t *data, size_t size, int prop) {
     if (o == O_CONNECT) {
       End &a = w.e[0];
       if (cm == CM_NONE || !a.live || a.connect_mode == CM_NONE || a.n_conn || a.connect_failed || a.connect_pending) continue;
+      // known finding C19/rw-callback-before-connected: a connect() that succeeds immediately (AF_UNIX) schedules the USER write
+      // callback instead of activating the internal write event, so read/write callbacks run before CONNECTED (and CONNECTED
+      // waits for EV_WRITE to be enabled).  When listed, the ordering clause is not judged for immediate connects.
+      if (cm == CM_UNIX_OK && verif_known("C19/rw-callback-before-connected")) { verif_known_skipped("C19/rw-callback-before-connected"); a.skip_conn_order = true; }
       a.connect_pending = true; a.rw_since_connect = 0;
       int r = cm == CM_PRECONNECTED ? bufferevent_socket_connect(top(a), nullptr, 0) : bufferevent_socket_connect(top(a), (struct sockaddr *)&w.lsa, (int)w.lsalen);
       a.fd = bufferevent_getfd(top(a));
@@ -609,7 +664,9 @@ static int run_case(const uint8_t *data, size_t size, int prop) {
         do_setwatermark(e, ev, lo, hi, "op"); break; }
       case O_UWM: if (e.nl > 1) { size_t lo = draw_mark(s), hi = draw_mark(s); TR("op: %c underlying setwatermark(W, %zu, %zu)", 'A' + e.id, lo, hi); bufferevent_setwatermark(e.L[e.nl - 2].bev, EV_WRITE, lo, hi); } break;
       case O_FLUSH: { short io = (short)(1 + s.below(3)); io = (short)(((io & 1) ? EV_READ : 0) | ((io & 2) ? EV_WRITE : 0)); int mode = s.below(3);
+        if (e.nl > 2) io = EV_WRITE;   // code-derived corner: flush(EV_READ) on stacked filters strands data in the middle layer (one layer per call, no read callback)
         if (mode == BEV_FINISHED && w.kind == K_PAIR) { if (((io & EV_WRITE) && e.fin_w) || ((io & EV_READ) && e.fin_r) || peer(e).rd_done || peer(e).wr_done) mode = BEV_FLUSH; }
+        if (mode == BEV_FINISHED && w.kind == K_PAIR && pair_finish_excluded(e, io)) mode = BEV_FLUSH;
         if (mode != BEV_NORMAL) w.e[0].hi_excuse = w.e[1].hi_excuse = true;
         if (mode == BEV_FINISHED && w.kind == K_PAIR) { if (io & EV_WRITE) e.fin_w = true; if (io & EV_READ) e.fin_r = true; }
         int r = bufferevent_flush(top(e), io, (enum bufferevent_flush_mode)mode); w.n_flush++;
@@ -619,7 +676,7 @@ static int run_case(const uint8_t *data, size_t size, int prop) {
       case O_SHUT:
         if (w.kind == K_SOCK) { if (e.fd >= 0 && !e.shut_wr && !e.connect_pending && (cm == CM_NONE || e.n_conn || e.id == 1)) { uint64_t q = all_out(e); TR("op: %c shutdown(SHUT_WR) with %llu byte(s) still buffered", 'A' + e.id, (unsigned long long)q);
             shutdown(e.fd, SHUT_WR); e.shut_wr = true; if (q) { e.clean_out = false; peer(e).clean_in = false; } } }
-        else if (!e.fin_w && !peer(e).rd_done) { e.fin_w = true; w.e[0].hi_excuse = w.e[1].hi_excuse = true; int r = bufferevent_flush(top(e), EV_WRITE, BEV_FINISHED); w.n_flush++; TR("op: %c finish (flush W FINISHED) -> %d", 'A' + e.id, r);
+        else if (!e.fin_w && !peer(e).rd_done && !pair_finish_excluded(e, EV_WRITE)) { e.fin_w = true; w.e[0].hi_excuse = w.e[1].hi_excuse = true; int r = bufferevent_flush(top(e), EV_WRITE, BEV_FINISHED); w.n_flush++; TR("op: %c finish (flush W FINISHED) -> %d", 'A' + e.id, r);
           for (int i = 0; i < 2; i++) if (w.e[i].live) { w.e[i].total_at_last_rcb = in_total(w.e[i]); w.e[i].low_excuse = true; } }
         break;
       case O_FREE: app_free(e, "op"); break;
@@ -631,7 +688,8 @@ static int run_case(const uint8_t *data, size_t size, int prop) {
           if (fail && arg != EAGAIN && arg != EINTR) { if (rd) e.clean_in = false; else { e.clean_out = false; peer(e).clean_in = false; } } }
         break;
       case O_CLRFAULT: sim_script_clear(); w.faults_armed = false; TR("op: clear faults"); break;
-      case O_SETCB: { bool r = s.flag(), wr = s.flag(), ev = s.flag(); set_cbs(e, r, wr, ev); break; }
+      case O_SETCB: { bool r = s.flag(), wr = s.flag(), ev = s.flag();
+        set_cbs(e, r, wr, ev); break; }
     }
     post_op("op");
   }
@@ -641,9 +699,9 @@ static int run_case(const uint8_t *data, size_t size, int prop) {
   if (!w.cap_hit) settle();
   if (!w.cap_hit) for (int i = 0; i < 2; i++) { End &src = w.e[i], &dst = w.e[1 - i];
     if (!src.live || !dst.live || !src.clean_out || !dst.clean_in) continue;
-    if (dst.rd_done && !src.shut_wr && !src.fin_w) continue;
+    if (dst.rd_done && !(w.kind == K_SOCK && src.shut_wr)) continue;   // judged when the EOF was reported (C17/eof-before-data)
     CHECK(dst.consumed == src.written, K("bytes-not-delivered"), "after the history drained: %c wrote %llu byte(s), %c obtained %llu (no error, reset or free on this direction)", 'A' + i, (unsigned long long)src.written, 'A' + 1 - i, (unsigned long long)dst.consumed);
-    if (M17() && w.kind == K_SOCK && src.shut_wr) CHECK(dst.n_eof_r == 1, "C17/eof-missing", "%c shut down writing in an orderly way, %c is reading, but saw %d EOF report(s)", 'A' + i, 'A' + 1 - i, dst.n_eof_r);
+    if (M17() && w.kind == K_SOCK && src.shut_wr) CHECK(dst.n_eof_r >= 1, "C17/eof-missing", "%c shut down writing in an orderly way, %c is reading, but saw %d EOF report(s)", 'A' + i, 'A' + 1 - i, dst.n_eof_r);
   }
   (void)pre_settle_cap;
 
@@ -654,8 +712,8 @@ static int run_case(const uint8_t *data, size_t size, int prop) {
   event_base_free(w.base); w.base = nullptr;
   for (int i = 0; i < 2; i++) if (closefd[i] >= 0) close(closefd[i]);
   if (w.listener >= 0) close(w.listener);
-  sim_fd_snapshot(&fd1); int lf = sim_fd_diff(&fd0, &fd1);
-  CHECK(lf < 0, K("fd-leak"), "fd %d differs between start and end of the case", lf);
+  int fds1 = count_open_fds();
+  CHECK(fds0 == fds1, K("fd-leak"), "%d file descriptors open at the start of the case, %d at the end", fds0, fds1);
   CHECK(sim_mem_live_blocks == live0, K("leak"), "library allocations outstanding after teardown: %lld", (long long)(sim_mem_live_blocks - live0));
   { const char *er = sim_lockmon_error(); CHECK(er == nullptr, K("lock-misuse"), "teardown: %s", er); }
 
